@@ -249,6 +249,12 @@ def execute(case):
   obs['has_namedtuple'] = contains(cfg, graphs.is_namedtuple)
   obs['has_tags'] = any(ts for n in C15.reachable_buildables(cfg) for ts in n.__argument_tags__.values())
   obs['n_sub'] = len(subs or {})
+  _refs = {}
+  for _n in C15.reachable_buildables(cfg):
+    for _v in _n.__arguments__.values():
+      if isinstance(_v, fdl.ArgFactory):
+        _refs[id(_v)] = _refs.get(id(_v), 0) + 1
+  obs['shared_argfactory'] = any(c > 1 for c in _refs.values())
   try:
     if case['generator'] == 'new':
       code = new_codegen.new_codegen(cfg, sub_fixtures=subs, max_expression_complexity=case['complexity'],
@@ -353,6 +359,11 @@ def oracle(case, real):
       elif (real['generator'] == 'auto' and real.get('run', '').startswith('raised ValueError')
             and 'arg_factory argument' in real['run'] and real['has_tags']):
         f['class'] = 'autocg-tagged-argfactory'
+    if 'class' not in f and real['generator'] == 'auto' and real.get('same') is False \
+        and real.get('shared_argfactory'):
+      from harness.props import C20 as _c20b
+      if _c20b.expand(real['got']) == _c20b.expand(real['want']):
+        f['class'] = 'autocg-shared-argfactory'   # same values; one ArgFactory used for several arguments
     if 'class' not in f:
       from harness.props import C20 as _c20
       if (real.get('same') is False and real['has_namedtuple']
